@@ -944,6 +944,63 @@ func ruleGoAwayBookkeeping(p *Prog, r *Out) {
 		}
 		return true
 	})
+	// a local defined once, from an atomic load of the field
+	loadAt, markAt := token.NoPos, token.NoPos
+	if id, ok := setArg.(*ast.Ident); ok && !fromLast {
+		defs := 0
+		for _, s := range fd.Body.List {
+			as, ok := s.(*ast.AssignStmt)
+			if !ok || len(as.Lhs) != 1 || p.text(as.Lhs[0]) != id.Name {
+				continue
+			}
+			defs++
+			if squash(p.text(as.Rhs[0])) == "atomic.LoadUint32(&sc.lastID)" {
+				fromLast, loadAt = true, as.Pos()
+			}
+		}
+		if defs != 1 {
+			fromLast = false
+		}
+	}
+	if fromLast && loadAt.IsValid() {
+		// the connection is marked as closing before the id is read: the stream
+		// loop publishes an id and then re-reads the mark (Dekker), so either
+		// the GOAWAY names the request or the stream loop refuses it
+		for _, s := range fd.Body.List {
+			if es, ok := s.(*ast.ExprStmt); ok {
+				if c, ok := es.X.(*ast.CallExpr); ok && strings.HasPrefix(p.calleeOf(c), "atomic.Store") && len(c.Args) == 2 && strings.Contains(p.text(c.Args[0]), "sc.state") {
+					markAt = es.Pos()
+				}
+			}
+		}
+		r.check(markAt.IsValid() && markAt < loadAt, "the closing mark is set before the last-stream-id is read", p.pos(fd.Pos()), "state = closed; last := atomic.LoadUint32(&sc.lastID)", "writeGoAway reads the highest accepted id before it marks the connection as closing: a request accepted in between runs although the GOAWAY, sent from another goroutine, names a lower id, and the client sends it again")
+		pub := false
+		if hs := p.decl("(*serverConn).handleStreams"); hs != nil {
+			ast.Inspect(hs.Body, func(n ast.Node) bool {
+				ifs, ok := n.(*ast.IfStmt)
+				if !ok || len(ifs.Body.List) != 2 {
+					return true
+				}
+				if squash(p.text(ifs.Body.List[0])) == "atomic.StoreUint32(&sc.lastID,fr.Stream())" && squash(p.text(ifs.Body.List[1])) == "wasClosing=isClosing()" &&
+					p.isConjunctionOf(ifs.Cond, "fr.Type()==FrameHeaders", "fr.Stream()>sc.lastID", "openStreams<int(sc.st.maxStreams)", "!wasClosing") {
+					// and the refusal test that reads wasClosing comes after it
+					pm := p.pmFor(hs)
+					if blk, ok := pm[ifs].(*ast.BlockStmt); ok {
+						for _, s := range blk.List {
+							if s.Pos() > ifs.Pos() {
+								if nx, ok := s.(*ast.IfStmt); ok && strings.Contains(squash(p.text(nx.Cond)), "||wasClosing") {
+									pub = true
+								}
+								break
+							}
+						}
+					}
+				}
+				return true
+			})
+		}
+		r.check(pub, "a request is made known before the closing mark is read one last time", p.pos(fd.Pos()), "if HEADERS on a new id, a free slot, not closing { lastID = id; wasClosing = isClosing() } right before the refusal test", "the stream loop no longer publishes the id of a request it is about to accept and then re-reads the closing mark before it decides: a GOAWAY from the read loop or the idle timer can name a lower id while this request is handed to its handler")
+	}
 	if !fromLast {
 		// describe what call sites pass
 		vals := map[string]int{}
